@@ -22,7 +22,12 @@ B(o, a, b) == [k |-> "b", o |-> o, a |-> a, b |-> b]
 Ln(n, s) == [n |-> n, s |-> s]
 Prt(e) == [op |-> "PRINT", e |-> e, col |-> TRUE]
 EndS == [op |-> "END", col |-> TRUE]
-P(lines, tag) == [lines |-> lines, vars |-> <<"I", "J", "A", "K%">>, ints |-> <<"K%">>, tag |-> tag]
+P(lines, tag) == [lines |-> lines, vars |-> <<"I", "J", "A", "K%">>, ints |-> <<"K%">>,
+                  tag |-> [kind |-> tag.kind, expect |-> tag.expect, endk |-> "end", code |-> 0, line |-> 0]]
+\* programs that are expected to stop with an error (code, line)
+PE(lines, tag) == [lines |-> lines, vars |-> <<"I", "J", "A", "K%">>, ints |-> <<"K%">>, tag |-> tag]
+Let(v, e) == [op |-> "LET", v |-> v, e |-> e, col |-> TRUE]
+Op(o) == [op |-> o, col |-> TRUE]
 
 Rng == -2..3
 Steps3 == {-2, -1, 1, 2, 3}
@@ -74,4 +79,94 @@ GosubProg(d) ==
                                    <<Prt(C(-k)), [op |-> "RETURN", n |-> 0, col |-> TRUE]>>)],
       [kind |-> "gosub", expect |-> Bracket(1, d) \o <<50>>])
 GosubFamily == {GosubProg(d) : d \in 1..4}
+(* ---------------- C22: READ / DATA / RESTORE ---------------- *)
+\* four items spread over three DATA statements (one in the middle of a multi-statement line); the program reads r
+\* values, RESTOREs (variant rv) after the j-th, and prints every value read
+DItems == <<11, 12, 13, 14>>
+DataSt(vs) == [op |-> "DATA", items |-> [i \in 1..Len(vs) |-> [num |-> TRUE, v |-> vs[i]]], col |-> TRUE]
+ReadPrint == <<[op |-> "READ", vs |-> <<"A">>, col |-> TRUE], Prt(V("A"))>>
+RestoreSt(rv) == [op |-> "RESTORE", n |-> (CASE rv = "all" -> 0 [] rv = "l30" -> 30 [] rv = "l40" -> 40 [] rv = "l60" -> 60), col |-> TRUE]
+\* index of the item the next READ returns after RESTORE variant rv (declaratively: first DATA at or after the line)
+RestartAt(rv) == CASE rv = "all" -> 1 [] rv = "l30" -> 2 [] rv = "l40" -> 4 [] rv = "l60" -> 5
+RECURSIVE ReadLines(_, _, _, _)
+ReadLines(n, k, j, rv) ==        \* lines 100+: k reads; after the j-th a RESTORE
+    IF k = 0 THEN <<>>
+    ELSE <<Ln(n, ReadPrint)>> \o (IF j = 1 THEN <<Ln(n + 1, <<RestoreSt(rv)>>)>> ELSE <<>>) \o ReadLines(n + 2, k - 1, j - 1, rv)
+\* the sequence of item indices read: 1..j then RestartAt, RestartAt+1, ...
+ReadIdx(i, j, rv) == IF j = 0 \/ i <= j THEN i ELSE RestartAt(rv) + (i - j - 1)
+DataProg(r, j, rv) ==
+    LET idx  == [i \in 1..r |-> ReadIdx(i, j, rv)]
+        good == {i \in 1..r : \A k \in 1..i : idx[k] <= 4}
+        ng   == Cardinality(good)
+    IN PE(<<Ln(10, <<DataSt(<<11>>)>>),
+            Ln(30, <<Prt(C(0)), DataSt(<<12, 13>>), Prt(C(1))>>),
+            Ln(40, <<Prt(C(2))>>),
+            Ln(50, <<DataSt(<<14>>)>>),
+            Ln(60, <<Prt(C(3))>>)>> \o ReadLines(100, r, j, rv) \o <<Ln(900, <<Prt(C(99)), EndS>>)>>,
+          [kind |-> "data",
+           expect |-> <<0, 1, 2, 3>> \o [i \in 1..ng |-> DItems[idx[i]]] \o (IF ng = r THEN <<99>> ELSE <<>>),
+           endk |-> IF ng = r THEN "end" ELSE "error", code |-> IF ng = r THEN 0 ELSE 4,
+           line |-> IF ng = r THEN 0 ELSE 100 + 2 * ng])
+DataFamily == {DataProg(r, j, rv) : r \in 0..6, j \in 0..3, rv \in {"all", "l30", "l40", "l60"}}
+\* a non-numeric item read into a numeric variable: Syntax error reported on the DATA line
+BadDataProg(pos) ==
+    PE(<<Ln(10, <<DataSt(<<11>>)>>),
+         Ln(20, <<[op |-> "DATA", items |-> IF pos = 1 THEN <<[num |-> FALSE, v |-> 0], [num |-> TRUE, v |-> 5]>>
+                                            ELSE <<[num |-> TRUE, v |-> 5], [num |-> FALSE, v |-> 0]>>, col |-> TRUE]>>),
+         Ln(30, <<[op |-> "READ", vs |-> <<"I", "J", "A">>, col |-> TRUE], Prt(C(1))>>),
+         Ln(40, <<EndS>>)>>,
+       [kind |-> "baddata", expect |-> <<>>, endk |-> "error", code |-> 2, line |-> 20])
+BadDataFamily == {BadDataProg(pos) : pos \in 1..2}
+
+(* ---------------- C21: error trapping and RESUME ---------------- *)
+Fault(f) == CASE f = "e5"   -> [op |-> "ERROR", e |-> C(5), col |-> TRUE]
+              [] f = "e200" -> [op |-> "ERROR", e |-> C(200), col |-> TRUE]
+              [] f = "ovf"  -> Let("K%", B("+", C(32767), V("A")))        \* A = 1 first, repaired to -1 by the handler
+              [] f = "ul"   -> [op |-> "GOTO", n |-> 999, col |-> TRUE]
+              [] f = "rwg"  -> [op |-> "RETURN", n |-> 0, col |-> TRUE]
+              [] f = "nwf"  -> [op |-> "NEXT", vs |-> <<>>, col |-> TRUE]
+              [] f = "ood"  -> [op |-> "READ", vs |-> <<"J">>, col |-> TRUE]
+Faults == {"e5", "e200", "ovf", "ul", "rwg", "nwf", "ood"}
+Code(f) == CASE f = "e5" -> 5 [] f = "e200" -> 200 [] f = "ovf" -> 6 [] f = "ul" -> 8 [] f = "rwg" -> 3 [] f = "nwf" -> 1 [] f = "ood" -> 4
+PrtErr == <<Prt([k |-> "err"]), Prt([k |-> "erl"])>>
+ErrProg(f, h) ==
+    LET body == <<Ln(15, <<Let("A", C(1))>>),
+                  Ln(20, <<Prt(C(1)), Fault(f), Prt(C(2))>>),
+                  Ln(30, <<Prt(C(3))>>),
+                  Ln(40, <<EndS>>)>>
+        c == Code(f)
+    IN CASE h = "none" ->      \* no handler: stops with the message naming line 20
+              PE(body, [kind |-> "err", expect |-> <<1>>, endk |-> "error", code |-> c, line |-> 20])
+         [] h = "next" ->
+              PE(<<Ln(10, <<[op |-> "ONERR", n |-> 100, col |-> TRUE]>>)>> \o body \o
+                 <<Ln(100, PrtErr \o <<[op |-> "RESUME", w |-> "NEXT", n |-> 0, col |-> TRUE]>>)>>,
+                 [kind |-> "err", expect |-> <<1, c, 20, 2, 3>>, endk |-> "end", code |-> 0, line |-> 0])
+         [] h = "line" ->
+              PE(<<Ln(10, <<[op |-> "ONERR", n |-> 100, col |-> TRUE]>>)>> \o body \o
+                 <<Ln(100, PrtErr \o <<[op |-> "RESUME", w |-> "LINE", n |-> 30, col |-> TRUE]>>)>>,
+                 [kind |-> "err", expect |-> <<1, c, 20, 3>>, endk |-> "end", code |-> 0, line |-> 0])
+         [] h = "retry" ->     \* RESUME re-executes the failing statement: it fails again and again unless repaired
+              PE(<<Ln(10, <<[op |-> "ONERR", n |-> 100, col |-> TRUE]>>)>> \o body \o
+                 <<Ln(100, PrtErr \o <<Let("A", C(-1)), Let("I", B("+", V("I"), C(1)))>>),
+                   Ln(110, <<[op |-> "IF", e |-> B(">", V("I"), C(2)), tn |-> 0, en |-> 0, ei |-> 0, col |-> TRUE],
+                             [op |-> "RESUME", w |-> "NEXT", n |-> 0, col |-> FALSE]>>),
+                   Ln(120, <<[op |-> "RESUME", w |-> "0", n |-> 0, col |-> TRUE]>>)>>,
+                 [kind |-> "err",
+                  expect |-> IF f = "ovf" THEN <<1, 6, 20, 2, 3>> ELSE <<1, c, 20, c, 20, c, 20, 2, 3>>,
+                  endk |-> "end", code |-> 0, line |-> 0])
+         [] h = "inh" ->       \* an error inside the handler stops the program with that error
+              PE(<<Ln(10, <<[op |-> "ONERR", n |-> 100, col |-> TRUE]>>)>> \o body \o
+                 <<Ln(100, PrtErr \o <<[op |-> "ERROR", e |-> C(77), col |-> TRUE]>>)>>,
+                 [kind |-> "err", expect |-> <<1, c, 20>>, endk |-> "error", code |-> 77, line |-> 100])
+         [] h = "off" ->       \* ON ERROR GOTO 0 inside the handler: stops with the original error and line
+              PE(<<Ln(10, <<[op |-> "ONERR", n |-> 100, col |-> TRUE]>>)>> \o body \o
+                 <<Ln(100, PrtErr \o <<[op |-> "ONERR", n |-> 0, col |-> TRUE]>>)>>,
+                 [kind |-> "err", expect |-> <<1, c, 20>>, endk |-> "error", code |-> c, line |-> 20])
+         [] h = "fall" ->      \* falling off the end inside the handler: No RESUME
+              PE(<<Ln(10, <<[op |-> "ONERR", n |-> 100, col |-> TRUE]>>)>> \o body \o
+                 <<Ln(100, PrtErr)>>,
+                 [kind |-> "err", expect |-> <<1, c, 20>>, endk |-> "error", code |-> 19, line |-> -1])
+ErrFamily == {ErrProg(f, h) : f \in Faults, h \in {"none", "next", "line", "retry", "inh", "off", "fall"}}
+              \cup {PE(<<Ln(10, <<Prt(C(1)), [op |-> "RESUME", w |-> "0", n |-> 0, col |-> TRUE]>>)>>,
+                       [kind |-> "err", expect |-> <<1>>, endk |-> "error", code |-> 20, line |-> 10])}
 =============================================================================
